@@ -39,6 +39,11 @@ func kRevisit(args []string) (string, string) {
 	if pb, ok := orig.Block().(gowarc.ProtocolHeaderBlock); ok && (origKind == "httpReq" || origKind == "httpResp") {
 		head = append([]byte{}, pb.ProtocolHeaderBytes()...)
 		origPD = orig.Block().(gowarc.PayloadBlock).PayloadDigest()
+		// the protocol header is the content up to and including the first EMPTY line (a line holding only white space is a
+		// folded continuation, not the end): judged against an independent splitter when the content has such a line
+		if want, found := splitHead(content); found && !bytes.Equal(want, head) {
+			return "orig=" + origKind + " head-split-differs", fmt.Sprintf("VIOL c20-block the protocol header of the original is %d bytes, the content up to its first empty line %d", len(head), len(want))
+		}
 	}
 	var ref *gowarc.RevisitRef
 	profile := unhxs(args[7])
